@@ -43,7 +43,8 @@ CLAIMED["C01"] = dict(
          "histories with an attacker stream (forged plaintext of every type/count, bit flips, truncations, extensions, header "
          "rewrites, other-key ciphertext, random bytes) towards keyed and unkeyed endpoints; monitor compares full state snapshots.",
     note=TRUST + "INT-CTXT of AES-GCM assumed outside Lean; the driver uses a toy MAC as AEAD instance (theorems quantify over any AEAD); "
-         "history-level non-interference is a corollary argument (dropped is write-only), stated in DESIGN, not yet a Lean theorem.",
+         "history-level non-interference is the Lean theorem C01_history_noninterference (erasing any set of unauthentic arrivals from any history "
+         "changes only stats.dropped), resting on the proved commutation of every model operation with the dropped counter.",
     design="§8 C01", technique="Lean 4 proof (per-step full-state equality) + differential correspondence with attacker stream")
 
 CLAIMED["C19"] = dict(
@@ -152,11 +153,13 @@ CLAIMED["C07"] = dict(
          "C07_timeout_resolves_all_due); a True resolution happens only for a datagram the received header names "
          "(C07_true_only_if_named) and a named datagram was accepted by the peer (C07_ack_names_accepted, via the window refinement of "
          "C08/C04); a RetrySender reports its first success once and is silent afterwards, a FragmentSender reports exactly when its last "
-         "slot is resolved. The history-level count (exactly one invocation per unretried/guaranteed send) is the composition of these "
-         "steps and is checked by the monitor on every differential run (two-party histories with long round trips, partial loss, stale "
-         "and duplicated ack carriers) - partial as a theorem.",
+         "slot is resolved. At history level, C07_at_most_once: over every history (any network, any peer) the number of invocations "
+         "of a callback is bounded by the number of sends that were given it (BEST_EFFORT excluded, as in the property); that every send "
+         "is eventually resolved is per-sweep theorem + monitor on every differential run (two-party histories with long round trips, "
+         "partial loss, stale and duplicated ack carriers).",
     note=TRUST + "InSync (peer's newest within half a ring); user callbacks do not re-enter; 'accepted' is read at endpoint level; "
-         "history-level exactly-once not yet one Lean theorem.",
+         "at-most-once over whole histories is the Lean theorem C07_at_most_once (potential argument); at-least-once as a count over a history "
+         "is per-sweep theorem + monitor.",
     design="§8 C07", technique="Lean 4 proof (per-step bookkeeping theorems, ack-names-accepted composition) + differential correspondence")
 
 CLAIMED["C05"] = dict(
